@@ -219,6 +219,8 @@ func datagram(r *rng.R, class string, serial, card uint32) []byte {
 		b = b[:rng.Pick(r, 1, 8, 63)]
 	case "long":
 		b = append(b, r.Bytes(1)...)
+	case "empty":
+		b = b[:0]
 	case "long64":
 		b = append(b, r.Bytes(64)...)
 	case "wrong-serial":
